@@ -73,6 +73,12 @@ def eocd (mid : Bytes) (centralOffset : Nat) : Bytes := zipEocdSig ++ (mid ++ (e
 def apkFile (pre : Bytes) (ps : List Pair) (cdRest mid : Bytes) : Bytes :=
   pre ++ (encodeBlock ps ++ (zipCdSig ++ cdRest ++ eocd mid (pre.length + (encodeBlock ps).length)))
 
+/-- an archive without signing block: local entries `pre` (at least 24 bytes, not ending in the
+    magic), central directory, EOCD without comment pointing at the central directory -/
+def plainFile (pre cdRest mid : Bytes) : Bytes :=
+  pre ++ (zipCdSig ++ (cdRest ++ (zipEocdSig ++ (mid ++ (encU32 pre.length ++ [0, 0])))))
+
+
 /-! well-formedness: everything fits its length field -/
 def ItemWF (x : AlgItem) : Prop := x.1 < 2 ^ 32 ∧ x.2.length + 8 < 2 ^ 32
 def SignerWF (v3 : Bool) (s : Signer) : Prop :=
